@@ -839,6 +839,16 @@ class _ModRenderer:
             decos = ["dataclasses.dataclass", *[d for d in decos if d != "dataclasses.dataclass"]]
             # the extension only synthesises `__init__` when the class does not define one
             spec = {**spec, "body": [(["func", "f", st_[2]] if st_[0] == "func" and st_[1] == "__init__" else st_) for st_ in spec["body"]]}
+        if "init-forwarded-annotation" in _CTX["steer"]:
+            # known finding: the scope of attributes assigned by an `__init__` that is redefined later cannot be recovered
+            seen_init, body = False, []
+            for st_ in spec["body"]:
+                if st_[0] == "func" and st_[1] == "__init__":
+                    if seen_init:
+                        st_ = ["func", "g", st_[2]]
+                    seen_init = True
+                body.append(st_)
+            spec = {**spec, "body": body}
         for d in decos:
             s.add(indent, "@" + d)
         args = [b for b in (self._base(b) for b in spec["bases"]) if b]
